@@ -1,13 +1,14 @@
 (* Run/C10.v — executable comparator for the C10 correspondence. *)
 From Coq Require Import List NArith ZArith Bool.
+From Cedar Require Import Lib.Bytes.
 From Cedar Require Export Model.Negotiate.
 Import ListNotations.
 Local Open Scope Z_scope.
 
-Inductive case :=
+Inductive case1 :=
 | CNeg (sA cA sE cE : lvl) (sm cm : list meth) (sc cc : list ciph)
        (err auth enc enact : bool) (m : meth) (k : option ciph)
-| CNegT (sm cm : list meth) (sc cc : list ciph) (m : meth) (k : option ciph) (rows : list (N * N))
+| CNegT (sm cm : list meth) (sc cc : list ciph) (m : meth) (k : option ciph) (codes : bytes)
 | CBit (b : Z) (m : option meth)
 | CMask (ms : list meth) (b : Z)
 | CHs (sA cA sE cE sI cI : lvl) (sm cm : list meth) (sc cc : list ciph)
@@ -31,20 +32,27 @@ Definition run_aok (m : meth) : bool := match m with mCTB => true | _ => false e
 Definition lvl_of (n : N) : lvl :=
   match n with 0%N => Rq | 1%N => Pf | 2%N => Op | 3%N => Nv | _ => Ot end.
 Definition b2N (b : bool) (w : N) : N := if b then w else 0%N.
-Definition neg_row (sm cm : list meth) (sc cc : list ciph) (m : meth) (k : option ciph) (row : N * N) : bool :=
-  let '(li, code) := row in
+Definition neg_code (sm cm : list meth) (sc cc : list ciph) (li : N) : N :=
   let cE := lvl_of (li mod 5)%N in
   let sE := lvl_of ((li / 5) mod 5)%N in
   let cA := lvl_of ((li / 25) mod 5)%N in
   let sA := lvl_of (li / 125)%N in
   let r := negotiate sA cA sE cE sm cm sc cc in
-  N.eqb (b2N (match n_err r with Some _ => true | None => false end) 1 + b2N (n_auth r) 2
-         + b2N (n_enc r) 4 + b2N (n_enact r) 8)%N code
-  && meth_eqb (n_meth r) m && optc_eqb (n_ciph r) k.
+  (b2N (match n_err r with Some _ => true | None => false end) 1 + b2N (n_auth r) 2
+   + b2N (n_enc r) 4 + b2N (n_enact r) 8)%N.
+(* codes: one byte per combination of the five level classes, index in base 5 *)
+Fixpoint neg_rows (sm cm : list meth) (sc cc : list ciph) (li : N) (codes : bytes) : bool :=
+  match codes with
+  | [] => N.eqb li 625
+  | b :: r => N.eqb (neg_code sm cm sc cc li) (b2n b) && neg_rows sm cm sc cc (li + 1)%N r
+  end.
 
-Definition check_case (c : case) : bool :=
+Definition check1 (c : case1) : bool :=
   match c with
-  | CNegT sm cm sc cc m k rows => forallb (neg_row sm cm sc cc m k) rows
+  | CNegT sm cm sc cc m k codes =>
+      neg_rows sm cm sc cc 0%N codes
+      && meth_eqb (n_meth (negotiate Op Op Op Op sm cm sc cc)) m
+      && optc_eqb (n_ciph (negotiate Op Op Op Op sm cm sc cc)) k
   | CNeg sA cA sE cE sm cm sc cc err auth enc enact m k =>
       let r := negotiate sA cA sE cE sm cm sc cc in
       Bool.eqb (match n_err r with Some _ => true | None => false end) err
@@ -65,6 +73,11 @@ Definition check_case (c : case) : bool :=
           && rounds_eqb (k_rounds r) rounds
       end
   end.
+
+(* a case of the correspondence run is a small batch of runs (fewer, larger
+   case files: Coq's start-up dominates the evaluation time) *)
+Definition case := list case1.
+Definition check_case (c : case) : bool := forallb check1 c.
 
 Fixpoint mism (i : nat) (cs : list case) : list nat :=
   match cs with
